@@ -99,7 +99,7 @@ fn c04_historical_data_received() {
     let mut wp = s::new_proxy(ReliabilityKind::Reliable);
     let highest: i64 = kani::any();
     kani::assume(highest >= 0 && highest <= 1000);
-    wp.irrelevant_change_set(highest);
+    wp.received_change_set(highest);
     assert!(!wp.is_historical_data_received(), "C04: no historical data before the first HEARTBEAT, whatever was received");
 
     let first: i64 = kani::any();
